@@ -26,14 +26,14 @@ Definition expected_fingerprints : list (string * string) := [
   ("keyexchange.py:FFDHKeyExchange._normalise_peer_share", "2b4091d285e2d3b3");
   ("keyexchange.py:FFDHKeyExchange.calc_shared_key", "91ac0384d716ddcc");
   ("keyexchange.py:ECDHKeyExchange._non_zero_check", "2b492add8763cbb1");
-  ("keyexchange.py:ECDHKeyExchange.calc_shared_key", "3c93bc0d6908ce06");
+  ("keyexchange.py:ECDHKeyExchange.calc_shared_key", "0a48ff75512105c7");
   ("keyexchange.py:ECDHKeyExchange._get_fun_gen_size", "76587201a0e568e7");
   ("cryptomath.py:bytesToNumber", "fd941533c2fb0aa1");
   ("cryptomath.py:numberToByteArray", "b38d08ee6bd42849");
   ("cryptomath.py:divceil", "24423bf7d72accb1");
   ("cryptomath.py:secureHash", "7fe3e9951a0f75c7");
   ("python_dsakey.py:Python_DSAKey.sign", "e7342ccd4ca09bbb");
-  ("python_dsakey.py:Python_DSAKey.verify", "624597cfc50507c2");
+  ("python_dsakey.py:Python_DSAKey.verify", "b87764ce4e870e29");
   ("python_dsakey.py:Python_DSAKey.hashAndSign", "ce8bcedfcb353606");
   ("python_dsakey.py:Python_DSAKey.hashAndVerify", "8923a87b6397cca1");
   ("python_dsakey.py:Python_DSAKey.generate", "e8013bfc3df9e26e");
